@@ -7,13 +7,15 @@ open PyGql PyGql.Depth
   Line protocol of C19.
 
   request  {"op":"check","doc":DOC,"vars":{name:bool},"grid":[[filter str|null, limit n] ..],"maxdepths":[n..]}
-  DOC      {"ops":[{"name":str|null,"sels":[SEL]}],"frags":[{"name":str,"sels":[SEL]}]}
+  DOC      {"ops":[{"name":str|null,"sels":[SEL],"vd":[{"n":str,"nn":bool,"d":bool|null}]}],"frags":[{"name":str,"sels":[SEL]}]}
   SEL      {"k":"f","a":str|null,"n":str,"d":DIRS,"s":[SEL]} | {"k":"i","d":DIRS,"s":[SEL]} | {"k":"s","n":str,"d":DIRS}
   DIRS     {"skip":COND|null,"incl":COND|null}     COND {"lit":bool} | {"var":str}
   answer   {"acyclic":bool,"fuel":n,"spec":[depth per op],
             "rule":[[flagged op indices] | "err:<kind>"  per grid entry],
+            "rulev":[same for the model of the rule after C19-Q1vars.patch (variables coerced per operation)],
             "orig":[same for the model of the unchanged rule],
-            "paths":[per op, per direct Field child, per maxdepth: [[path components]] | "err:<kind>"]}
+            "paths":[per op, per direct Field child, per maxdepth: [[path components]] | "err:<kind>"],
+            "pathsOrig": the same for `selected_fields` before C19-Q1sf.patch}
 -/
 
 namespace Driver.C19
@@ -38,6 +40,10 @@ partial def selOfJson (j : J) : Sel :=
 def docOfJson (j : J) : Doc :=
   { ops := (j.arrD "ops").map fun o => { name := optStr (o.getD "name"), sels := (o.arrD "sels").map selOfJson },
     frags := (j.arrD "frags").map fun f => { name := f.strD "name", sels := (f.arrD "sels").map selOfJson } }
+
+def varDefsOfJson (j : J) : List (List VarDef) :=
+  (j.arrD "ops").map fun o => (o.arrD "vd").map fun d =>
+    { name := d.strD "n", nonNull := d.boolD "nn", default := (d.getD "d").asBool? }
 
 def varsOfJson (j : J) : Vars :=
   match j with
@@ -70,10 +76,15 @@ def handle (j : J) : J :=
       ("fuel", J.ofNat fuel),
       ("spec", .arr (doc.ops.map fun op => J.ofNat (DepthSpec.depth doc vars op))),
       ("rule", .arr (grid.map fun (f, l) => resJ (rule fuel l f doc vars))),
+      ("rulev", .arr (grid.map fun (f, l) => resJ (ruleV fuel l f doc (varDefsOfJson (j.getD "doc")) vars))),
       ("orig", .arr (grid.map fun (f, l) => resJ (ruleOrig fuel l f doc vars))),
       ("paths", .arr (doc.ops.map fun op => .arr (op.sels.filterMap fun s =>
         match s with
-        | .field _ _ _ sub => some (.arr (maxdepths.map fun md => pathsJ (selectedFields fuel sub doc.frags vars md [])))
+        | .field _ _ _ sub => some (.arr (maxdepths.map fun md => pathsJ (selectedFields fuel sub doc.frags vars md (fun _ => true) [])))
+        | _ => none))),
+      ("pathsOrig", .arr (doc.ops.map fun op => .arr (op.sels.filterMap fun s =>
+        match s with
+        | .field _ _ _ sub => some (.arr (maxdepths.map fun md => pathsJ (selectedFieldsOrig fuel sub doc.frags vars md [])))
         | _ => none)))]
   | _ => .obj [("error", .str "bad-op")]
 
